@@ -19,7 +19,9 @@ Judge(f) ==
         ch == newev.channels
         bps == newev.bps
         over == {i \in 1..Len(sz) : sz[i] > FrameBound(f.enc[i][2], ch, bps)}
-        cover == IF f.constant THEN {i \in 1..Len(sz) : sz[i] > ConstBound(ch)} ELSE {}
+        \* constant blocks: all of them when the whole input is constant, else the frames the harness found constant
+        cset == IF f.constant THEN 1..Len(sz) ELSE IF "const_frames" \in DOMAIN f THEN {f.const_frames[k] : k \in 1..Len(f.const_frames)} ELSE {}
+        cover == {i \in cset \cap (1..Len(sz)) : sz[i] > ConstBound(ch)}
     IN /\ \A i \in over : PrintT(<<"REJECT", newev.run, l, "C19.frame-within-verbatim-bound", i, sz[i], FrameBound(f.enc[i][2], ch, bps)>>)
        /\ \A i \in cover : PrintT(<<"REJECT", newev.run, l, "C19.constant-block-is-tiny", i, sz[i], ConstBound(ch)>>)
        /\ PrintT(<<"STAT", Len(sz), IF Len(sz) = 0 THEN 0 ELSE (100 * sz[1]) \div FrameBound(f.enc[1][2], ch, bps)>>)
